@@ -53,6 +53,8 @@ def scenario_classes(scn):
         cls.append("nested_group")
     if any(s.get("transport") == "mem" for s in scn["sims"]):
         cls.append("remote")
+    if any(s.get("transport") == "sync" for s in scn["sims"]):
+        cls.append("ungated_sim")
     if any(s["beh"].get("future") for s in scn["sims"]):
         cls.append("future_time")
     cls.append("cache_on" if scn.get("world", {}).get("cache", True) else "cache_off")
